@@ -108,6 +108,8 @@ impl Interpreter {
                 Interpreter::verify(predicate)?
             }
             OpCodes::OP_RETURN => {
+                // Nothing after an executed OP_RETURN runs, the stacks stay as they are
+                state.status = super::Status::Finished;
                 return Ok(state.clone());
             }
             OpCodes::OP_TOALTSTACK => {
